@@ -428,3 +428,51 @@ pub mod gen2 {
         pub d: i32,
     }
 }
+
+
+/// The value with the fields of every record in the order in which `schema` lists them (hand-written
+/// expected values follow the Rust type; a schema from `permuted_schema` lists them otherwise).
+pub fn reorder_to_schema(v: Value, schema: &apache_avro::Schema) -> Value {
+    use apache_avro::Schema as S;
+    fn collect<'a>(s: &'a S, names: &mut std::collections::BTreeMap<String, &'a S>) {
+        match s {
+            S::Record(r) => {
+                names.insert(r.name.fullname(None), s);
+                r.fields.iter().for_each(|f| collect(&f.schema, names));
+            }
+            S::Array(a) => collect(&a.items, names),
+            S::Map(m) => collect(&m.types, names),
+            S::Union(u) => u.variants().iter().for_each(|b| collect(b, names)),
+            _ => {}
+        }
+    }
+    fn go(v: Value, s: &S, names: &std::collections::BTreeMap<String, &S>) -> Value {
+        match (v, s) {
+            (v, S::Ref { name }) => match names.get(&name.fullname(None)) {
+                Some(t) => go(v, t, names),
+                None => v,
+            },
+            (Value::Record(mut fs), S::Record(r)) => {
+                let mut out = Vec::with_capacity(fs.len());
+                for f in &r.fields {
+                    if let Some(i) = fs.iter().position(|(n, _)| n == &f.name) {
+                        let (n, x) = fs.remove(i);
+                        out.push((n, go(x, &f.schema, names)));
+                    }
+                }
+                out.extend(fs);
+                Value::Record(out)
+            }
+            (Value::Array(xs), S::Array(a)) => Value::Array(xs.into_iter().map(|x| go(x, &a.items, names)).collect()),
+            (Value::Map(m), S::Map(ms)) => Value::Map(m.into_iter().map(|(k, x)| (k, go(x, &ms.types, names))).collect()),
+            (Value::Union(i, x), S::Union(u)) => match u.variants().get(i as usize) {
+                Some(b) => Value::Union(i, Box::new(go(*x, b, names))),
+                None => Value::Union(i, x),
+            },
+            (v, _) => v,
+        }
+    }
+    let mut names = std::collections::BTreeMap::new();
+    collect(schema, &mut names);
+    go(v, schema, &names)
+}
